@@ -22,6 +22,12 @@ RULES = {
     'C19.S': 'every argument attribute is assigned on every normal path of '
              'the constructor',
     'C19.U': '__slots__ is a literal list of distinct identifiers',
+    'C19.O': 'wire order: __slots__ lists the arguments in the order the '
+             'specification puts them on the wire',
+    'C19.W': 'the name list is stable across a round trip: no abstract run '
+             'of marshal / unmarshal (failing paths included) stores into, '
+             'deletes from or calls a mutating method on a class-level '
+             'table of a frame class',
 }
 
 
@@ -54,6 +60,10 @@ def run(chk, ctx):
     props = prog.cls('commands.Basic.Properties')
     classes.append(props)
     nclasses = 0
+    spec_order = {'commands.' + m.py_name: [a.py_name for a in m.args]
+                  for m in ctx.spec.methods()}
+    spec_order['commands.Basic.Properties'] = [p[1] for p in
+                                               ctx.spec.properties()]
     for ci in sorted(classes, key=lambda c: c.qualname):
         q = ci.short
         site = '%s:%d' % (ci.module.relpath, ci.node.lineno)
@@ -63,6 +73,10 @@ def run(chk, ctx):
             chk.ob('C19.U', q + '.__slots__', False, str(err), site=site)
             continue
         nclasses += 1
+        want_order = spec_order.get(q)
+        chk.ob('C19.O', q + ' wire order', slots == want_order,
+               '__slots__ = %r' % (slots,),
+               detail={'expected': want_order}, site=site)
         okid = all(isinstance(s, str) and s.isidentifier() for s in slots) \
             and len(set(slots)) == len(slots)
         chk.ob('C19.U', q + '.__slots__', okid,
@@ -248,12 +262,76 @@ def run(chk, ctx):
                    'all %d slots assigned on %d normal exit(s)' %
                    (len(slots), nret) if not missing else
                    'may leave unset: %r' % (sorted(missing),), site=site)
+    stable_tables(chk, ctx, classes)
+    chk.floor('C19.O', 65, 'classes compared with the specified order')
     chk.floor('C19.I', 65, 'classes with __iter__ specialised')
     chk.floor('C19.S', 65, 'constructors analysed')
     chk.units['classes'] = nclasses
-    chk.assume('the slot tables are class-level literals nobody writes at '
-               'run time (decided by C16.G), so the result also holds after '
-               'a round trip')
-    chk.note('wire order is the order of __slots__, which Frame.marshal '
-             'iterates (C01/C04 tie it to the emitted layout and C14 to the '
-             'specification)')
+    chk.note('wire order is the specified argument order; C01/C04 tie '
+             '__slots__ to the emitted layout as well')
+
+
+def stable_tables(chk, ctx, classes):
+    """C19.W: effects of the abstract marshal / unmarshal runs on objects
+    created in the class bodies of the frame classes."""
+    from .. import codec
+    from .. import framepaths as F
+    from .. import layout as L
+    from .c16 import shared_effects
+    prog = ctx.prog
+    spans = []
+    roots = [prog.classes.get('pamqp.base.' + n) for n in
+             ('_AMQData', 'Frame', 'BasicProperties')]
+    for c in list(classes) + [r for r in roots if r is not None]:
+        spans.append((c.module.relpath, c.node.lineno,
+                      getattr(c.node, 'end_lineno', c.node.lineno)))
+
+    def in_class_scope(origin):
+        if not isinstance(origin, str) or ':' not in origin:
+            return False
+        path, _, line = origin.rpartition(':')
+        if not line.isdigit():
+            return False
+        return any(path == p and lo <= int(line) <= hi
+                   for p, lo, hi in spans)
+
+    pol = codec.FramePolicy(prog)
+    bad, runs = [], 0
+    for k, ci in ctx.index_mapping():
+        if not isinstance(ci, ClassInfo):
+            continue
+        e = L.method_encode(ctx, pol, ci)
+        f = F.UnmarshalFacts(ctx, k, assume_type=1)
+        runs += 2
+        for where, it_ in (('marshal', e['interp']), ('unmarshal', f.it)):
+            for ef in shared_effects(it_):
+                d = ef.detail
+                origin = d[2] if isinstance(d, tuple) and len(d) > 2 \
+                    else None
+                if ef.kind == 'class-attr-write' or in_class_scope(origin):
+                    bad.append((where, ci.short, ef))
+    # the content header path carries Basic.Properties
+    from .. import hdrlayout as H
+    extra = [('marshal', 'header.ContentHeader',
+              H.encode(ctx, pol)['interp']),
+             ('unmarshal', 'any frame', F.UnmarshalFacts(ctx, None).it)]
+    runs += 2
+    for where, cshort, it_ in extra:
+        for ef in shared_effects(it_):
+            d = ef.detail
+            origin = d[2] if isinstance(d, tuple) and len(d) > 2 else None
+            if ef.kind == 'class-attr-write' or in_class_scope(origin):
+                bad.append((where, cshort, ef))
+    seen = set()
+    for where, cshort, ef in bad:
+        key = (where, ef.kind, ef.site)
+        if key in seen:
+            continue
+        seen.add(key)
+        chk.ob('C19.W', '%s %s at %s' % (where, ef.kind, ef.site), False,
+               '%s of %s writes a class-level table: %s %s' % (
+                   where, cshort, ef.kind, str(ef.detail)[:120]),
+               site=ef.site)
+    chk.ob('C19.W', 'effects of marshal / unmarshal', not bad,
+           '%d abstract runs, %d writes to class-level tables' %
+           (runs, len(bad)))
